@@ -5,7 +5,7 @@
 package imperatives
 
 // error values created by package initialisers (errors.New never returns nil) and never reassigned
-//@ global_nonnil imperatives.errFmtAddRoute, imperatives.errFmtAddBlack, imperatives.errFmtAddAgg, imperatives.errFmtAddRouteGrafanaNet, imperatives.errFmtAddRouteKafkaMdm, imperatives.errFmtAddRoutePubSub, imperatives.errFmtAddDest, imperatives.errFmtAddRewriter, imperatives.errFmtModDest, imperatives.errFmtModRoute
+//@ global_nonnil imperatives.errOrgId0, imperatives.errFmtAddRoute, imperatives.errFmtAddBlack, imperatives.errFmtAddAgg, imperatives.errFmtAddRouteGrafanaNet, imperatives.errFmtAddRouteKafkaMdm, imperatives.errFmtAddRoutePubSub, imperatives.errFmtAddDest, imperatives.errFmtAddRewriter, imperatives.errFmtModDest, imperatives.errFmtModRoute
 
 // ---------------------------------------------------------------- readDestination (C20, C14): destination option strings
 // The option string is an abstract token stream (toki scanner). For every option X, optX(st, p) is the value the
@@ -299,16 +299,78 @@ package imperatives
 //@   logged
 //@
 //@ // addAgg <fn> [regex | options] <fmt> <interval> <wait> [cache= dropRaw=]
+// af_X(st, p): filter option X after the option tokens before position p (the legacy bare regex, if present, is the initial regex;
+// the latest 'X=' wins); ac_cache / ac_dropRaw(st, q, p): the two trailing options from position q (defaults: cache on, dropRaw off).
+//@ smt (declare-fun af_prefix (Int Int) Bytes)
+//@ smt (declare-fun af_notPrefix (Int Int) Bytes)
+//@ smt (declare-fun af_sub (Int Int) Bytes)
+//@ smt (declare-fun af_notSub (Int Int) Bytes)
+//@ smt (declare-fun af_regex (Int Int) Bytes)
+//@ smt (declare-fun af_notRegex (Int Int) Bytes)
+//@ smt (declare-fun ac_cache (Int Int Int) Bool)
+//@ smt (declare-fun ac_dropRaw (Int Int Int) Bool)
+//@ spec isAggFn(k int) bool := k == sumFn || k == avgFn || k == minFn || k == maxFn || k == lastFn || k == deltaFn || k == countFn || k == deriveFn || k == stdevFn
+//@ spec aggAsWritten(a *aggregator.Aggregator, st int, q int) bool := a.OutFmt == tkVal(st, q - 3) && a.Interval == atoiOf(btrim(tkVal(st, q - 2))) % 18446744073709551616 && a.Wait == atoiOf(btrim(tkVal(st, q - 1))) % 18446744073709551616
+//@      && a.Matcher.Prefix == af_prefix(st, q - 3) && a.Matcher.NotPrefix == af_notPrefix(st, q - 3) && a.Matcher.Sub == af_sub(st, q - 3) && a.Matcher.NotSub == af_notSub(st, q - 3)
+//@      && a.Matcher.Regex == af_regex(st, q - 3) && a.Matcher.NotRegex == af_notRegex(st, q - 3)
+//@ spec aggTrailing(a *aggregator.Aggregator, st int, q int, p int) bool := a.Cache == ac_cache(st, q, p) && a.DropRaw == ac_dropRaw(st, q, p)
 //@ func readAddAgg(s *toki.Scanner, table table.Interface) (err error)
 //@   property C20,C14
+//@   merge_paths
 //@   requires s != nil && table != nil && table.ref != 0
+//@   let st := s.input
+//@   let p0 := s.pos
+//@   let q1 := (tkKind(s.input, s.pos + 1) == word ? s.pos + 2 : s.pos + 1)
+//@   let L0 := calls(table.AddAggregator)
+//@   define af_prefix(st, q1) == ""
+//@   define forall p int :: p >= q1 && tkKind(st, p) == optPrefix ==> af_prefix(st, p + 2) == tkVal(st, p + 1)
+//@   define forall p int :: p >= q1 && tkKind(st, p) != optPrefix && isRouteOpt(tkKind(st, p)) ==> af_prefix(st, p + 2) == af_prefix(st, p)
+//@   define af_notPrefix(st, q1) == ""
+//@   define forall p int :: p >= q1 && tkKind(st, p) == optNotPrefix ==> af_notPrefix(st, p + 2) == tkVal(st, p + 1)
+//@   define forall p int :: p >= q1 && tkKind(st, p) != optNotPrefix && isRouteOpt(tkKind(st, p)) ==> af_notPrefix(st, p + 2) == af_notPrefix(st, p)
+//@   define af_sub(st, q1) == ""
+//@   define forall p int :: p >= q1 && tkKind(st, p) == optSub ==> af_sub(st, p + 2) == tkVal(st, p + 1)
+//@   define forall p int :: p >= q1 && tkKind(st, p) != optSub && isRouteOpt(tkKind(st, p)) ==> af_sub(st, p + 2) == af_sub(st, p)
+//@   define af_notSub(st, q1) == ""
+//@   define forall p int :: p >= q1 && tkKind(st, p) == optNotSub ==> af_notSub(st, p + 2) == tkVal(st, p + 1)
+//@   define forall p int :: p >= q1 && tkKind(st, p) != optNotSub && isRouteOpt(tkKind(st, p)) ==> af_notSub(st, p + 2) == af_notSub(st, p)
+//@   define af_regex(st, q1) == (tkKind(st, p0 + 1) == word ? tkVal(st, p0 + 1) : "")
+//@   define forall p int :: p >= q1 && tkKind(st, p) == optRegex ==> af_regex(st, p + 2) == tkVal(st, p + 1)
+//@   define forall p int :: p >= q1 && tkKind(st, p) != optRegex && isRouteOpt(tkKind(st, p)) ==> af_regex(st, p + 2) == af_regex(st, p)
+//@   define af_notRegex(st, q1) == ""
+//@   define forall p int :: p >= q1 && tkKind(st, p) == optNotRegex ==> af_notRegex(st, p + 2) == tkVal(st, p + 1)
+//@   define forall p int :: p >= q1 && tkKind(st, p) != optNotRegex && isRouteOpt(tkKind(st, p)) ==> af_notRegex(st, p + 2) == af_notRegex(st, p)
+//@   define forall q int :: ac_cache(st, q, q) == true
+//@   define forall q int :: forall p int :: p >= q && tkKind(st, p) == optCache ==> ac_cache(st, q, p + 2) == parseBoolOf(tkVal(st, p + 1))
+//@   define forall q int :: forall p int :: p >= q && tkKind(st, p) != optCache && (tkKind(st, p) == optCache || tkKind(st, p) == optDropRaw) ==> ac_cache(st, q, p + 2) == ac_cache(st, q, p)
+//@   define forall q int :: ac_dropRaw(st, q, q) == false
+//@   define forall q int :: forall p int :: p >= q && tkKind(st, p) == optDropRaw ==> ac_dropRaw(st, q, p + 2) == parseBoolOf(tkVal(st, p + 1))
+//@   define forall q int :: forall p int :: p >= q && tkKind(st, p) != optDropRaw && (tkKind(st, p) == optCache || tkKind(st, p) == optDropRaw) ==> ac_dropRaw(st, q, p + 2) == ac_dropRaw(st, q, p)
 //@   modifies *
-//@   ensures[nothing_added_on_error; C20] err != nil ==> calls(table.AddAggregator) == old(calls(table.AddAggregator))
-//@   ensures[one_aggregation_added; C20] err == nil ==> (exists a *aggregator.Aggregator :: a != nil && calls(table.AddAggregator) == old(calls(table.AddAggregator)) ++ argsOf(a))
+//@   ensures[nothing_added_on_error; C20] err != nil ==> calls(table.AddAggregator) == L0
+//@   ensures[one_aggregation_added; C20] err == nil ==> (exists a *aggregator.Aggregator :: a != nil && calls(table.AddAggregator) == L0 ++ argsOf(a))
+//@   ensures[function_named_first; C20] err == nil ==> isAggFn(tkKind(st, p0)) && (exists a *aggregator.Aggregator :: a != nil && calls(table.AddAggregator) == L0 ++ argsOf(a) && a.Fun == bsub(tkVal(st, p0), 0, blen(tkVal(st, p0)) - 1))
+//@   ensures[each_option_its_own; C20] err == nil ==> (exists q int :: q - 3 >= q1 && tkKind(st, q - 3) == word && aggAsWritten(eIv(eP1(lget(calls(table.AddAggregator), llen(L0)))), st, q)
+//@        && aggTrailing(eIv(eP1(lget(calls(table.AddAggregator), llen(L0)))), st, q, s.pos))
 //@   loop 1:
-//@     invariant[scan] t != nil && calls(table.AddAggregator) == old(calls(table.AddAggregator))
+//@     invariant[scan] s.input == st && t != nil && t.Token == tkKind(st, tokPos(t, s)) && t.Value[..] == tkVal(st, tokPos(t, s)) && tokPos(t, s) >= q1 && calls(table.AddAggregator) == L0
+//@     invariant[prefix] prefix == af_prefix(st, tokPos(t, s))
+//@     invariant[notPrefix] notPrefix == af_notPrefix(st, tokPos(t, s))
+//@     invariant[sub] sub == af_sub(st, tokPos(t, s))
+//@     invariant[notSub] notSub == af_notSub(st, tokPos(t, s))
+//@     invariant[regex] regex == af_regex(st, tokPos(t, s))
+//@     invariant[notRegex] notRegex == af_notRegex(st, tokPos(t, s))
 //@   loop 2:
-//@     invariant[scan2] t != nil && calls(table.AddAggregator) == old(calls(table.AddAggregator))
+//@     invariant[scan2] s.input == st && t != nil && calls(table.AddAggregator) == L0
+//@     invariant[scan2b] t.Token == tkKind(st, tokPos(t, s))
+//@     invariant[scan2c] tokPos(t, s) >= entry(tokPos(t, s))
+//@     invariant[written_pos] entry(tokPos(t, s)) - 3 >= q1 && tkKind(st, entry(tokPos(t, s)) - 3) == word
+//@     invariant[written_fmt] outFmt == tkVal(st, entry(tokPos(t, s)) - 3)
+//@     invariant[written_times] interval == atoiOf(btrim(tkVal(st, entry(tokPos(t, s)) - 2))) && wait == atoiOf(btrim(tkVal(st, entry(tokPos(t, s)) - 1)))
+//@     invariant[written_filter] prefix == af_prefix(st, entry(tokPos(t, s)) - 3) && notPrefix == af_notPrefix(st, entry(tokPos(t, s)) - 3) && sub == af_sub(st, entry(tokPos(t, s)) - 3)
+//@        && notSub == af_notSub(st, entry(tokPos(t, s)) - 3) && regex == af_regex(st, entry(tokPos(t, s)) - 3) && notRegex == af_notRegex(st, entry(tokPos(t, s)) - 3)
+//@     invariant[cache] cache == ac_cache(st, entry(tokPos(t, s)), tokPos(t, s))
+//@     invariant[dropRaw] dropRaw == ac_dropRaw(st, entry(tokPos(t, s)), tokPos(t, s))
 //@
 //@ func readModDest(s *toki.Scanner, table table.Interface) (err error)
 //@   property C14
@@ -323,14 +385,89 @@ package imperatives
 //@   loop 1:
 //@     invariant[scan] t != nil && opts != nil
 //@
-//@ // The three largest readers (about 200 lines of option parsing each): panic-freedom only (their options are not specified).
+// ---------------------------------------------------------------- addRoute grafanaNet (C20): every documented option sets exactly its own parameter
+// gn_X(st, q, p): value of option X after the option tokens from position q up to (not including) p; the defaults are
+// the documented ones, the latest 'X=' wins, and no other option touches X. The four positional words before q are
+// the address, the API key, the schemas file and the aggregation file.
+//@ smt (declare-fun gn_blocking (Int Int Int) Bool)
+//@ smt (declare-fun gn_spool (Int Int Int) Bool)
+//@ smt (declare-fun gn_sslVerify (Int Int Int) Bool)
+//@ smt (declare-fun gn_concurrency (Int Int Int) Int)
+//@ smt (declare-fun gn_bufSize (Int Int Int) Int)
+//@ smt (declare-fun gn_flushMaxNum (Int Int Int) Int)
+//@ smt (declare-fun gn_flushMaxWait (Int Int Int) Int)
+//@ smt (declare-fun gn_timeout (Int Int Int) Int)
+//@ smt (declare-fun gn_errBackoffMin (Int Int Int) Int)
+//@ smt (declare-fun gn_errBackoffFactor (Int Int Int) F64)
+//@ smt (declare-fun gn_orgId (Int Int Int) Int)
+//@ spec isGnOpt(k int) bool := k == optBlocking || k == optSpool || k == optSSLVerify || k == optConcurrency || k == optBufSize || k == optFlushMaxNum || k == optFlushMaxWait || k == optTimeout || k == optErrBackoffMin || k == optErrBackoffFactor || k == optOrgId
+//@ spec tokPos(t *toki.Result, s *toki.Scanner) int := ((t.Token == 4294967295 || t.Token == 4294967294) ? s.pos : s.pos - 1)
+//@ spec gnRouteOf(e elem) route.Route := mkiface(eIv(eP1(eP1(e))), eIv(eP2(eP1(e))))
+//@ spec gnCmdCfg(e elem) route.GrafanaNetConfig := as(gnRouteOf(e), *route.GrafanaNet).Cfg
+//@ spec gnPositional(c route.GrafanaNetConfig, st int, q int) bool := c.Addr == tkVal(st, q - 4) && c.ApiKey == tkVal(st, q - 3) && c.SchemasFile == tkVal(st, q - 2) && c.AggregationFile == tkVal(st, q - 1)
+//@ spec gnSwitches(c route.GrafanaNetConfig, st int, q int, p int) bool := c.Blocking == gn_blocking(st, q, p) && c.Spool == gn_spool(st, q, p) && c.SSLVerify == gn_sslVerify(st, q, p)
+//@ spec gnNumbers(c route.GrafanaNetConfig, st int, q int, p int) bool := c.Concurrency == gn_concurrency(st, q, p) && c.BufSize == gn_bufSize(st, q, p) && c.FlushMaxNum == gn_flushMaxNum(st, q, p) && c.OrgID == gn_orgId(st, q, p)
+//@ spec gnTimes(c route.GrafanaNetConfig, st int, q int, p int) bool := c.FlushMaxWait == gn_flushMaxWait(st, q, p) && c.Timeout == gn_timeout(st, q, p) && c.ErrBackoffMin == gn_errBackoffMin(st, q, p) && c.ErrBackoffFactor == gn_errBackoffFactor(st, q, p)
 //@ func readAddRouteGrafanaNet(s *toki.Scanner, table table.Interface) (err error)
-//@   property C14
+//@   property C20,C14
 //@   merge_paths
 //@   requires s != nil && table != nil && table.ref != 0
+//@   let st := s.input
+//@   let L0 := calls(table.AddRoute)
+//@   define forall q int :: gn_blocking(st, q, q) == false
+//@   define forall q int :: forall p int :: p >= q && tkKind(st, p) == optBlocking ==> gn_blocking(st, q, p + 2) == parseBoolOf(tkVal(st, p + 1))
+//@   define forall q int :: forall p int :: p >= q && tkKind(st, p) != optBlocking && isGnOpt(tkKind(st, p)) ==> gn_blocking(st, q, p + 2) == gn_blocking(st, q, p)
+//@   define forall q int :: gn_spool(st, q, q) == false
+//@   define forall q int :: forall p int :: p >= q && tkKind(st, p) == optSpool ==> gn_spool(st, q, p + 2) == parseBoolOf(tkVal(st, p + 1))
+//@   define forall q int :: forall p int :: p >= q && tkKind(st, p) != optSpool && isGnOpt(tkKind(st, p)) ==> gn_spool(st, q, p + 2) == gn_spool(st, q, p)
+//@   define forall q int :: gn_sslVerify(st, q, q) == true
+//@   define forall q int :: forall p int :: p >= q && tkKind(st, p) == optSSLVerify ==> gn_sslVerify(st, q, p + 2) == parseBoolOf(tkVal(st, p + 1))
+//@   define forall q int :: forall p int :: p >= q && tkKind(st, p) != optSSLVerify && isGnOpt(tkKind(st, p)) ==> gn_sslVerify(st, q, p + 2) == gn_sslVerify(st, q, p)
+//@   define forall q int :: gn_concurrency(st, q, q) == 100
+//@   define forall q int :: forall p int :: p >= q && tkKind(st, p) == optConcurrency ==> gn_concurrency(st, q, p + 2) == atoiOf(btrim(tkVal(st, p + 1)))
+//@   define forall q int :: forall p int :: p >= q && tkKind(st, p) != optConcurrency && isGnOpt(tkKind(st, p)) ==> gn_concurrency(st, q, p + 2) == gn_concurrency(st, q, p)
+//@   define forall q int :: gn_bufSize(st, q, q) == 10000000
+//@   define forall q int :: forall p int :: p >= q && tkKind(st, p) == optBufSize ==> gn_bufSize(st, q, p + 2) == atoiOf(btrim(tkVal(st, p + 1)))
+//@   define forall q int :: forall p int :: p >= q && tkKind(st, p) != optBufSize && isGnOpt(tkKind(st, p)) ==> gn_bufSize(st, q, p + 2) == gn_bufSize(st, q, p)
+//@   define forall q int :: gn_flushMaxNum(st, q, q) == 5000
+//@   define forall q int :: forall p int :: p >= q && tkKind(st, p) == optFlushMaxNum ==> gn_flushMaxNum(st, q, p + 2) == atoiOf(btrim(tkVal(st, p + 1)))
+//@   define forall q int :: forall p int :: p >= q && tkKind(st, p) != optFlushMaxNum && isGnOpt(tkKind(st, p)) ==> gn_flushMaxNum(st, q, p + 2) == gn_flushMaxNum(st, q, p)
+//@   define forall q int :: gn_flushMaxWait(st, q, q) == 500000000
+//@   define forall q int :: forall p int :: p >= q && tkKind(st, p) == optFlushMaxWait ==> gn_flushMaxWait(st, q, p + 2) == mul64(atoiOf(btrim(tkVal(st, p + 1))), 1000000)
+//@   define forall q int :: forall p int :: p >= q && tkKind(st, p) != optFlushMaxWait && isGnOpt(tkKind(st, p)) ==> gn_flushMaxWait(st, q, p + 2) == gn_flushMaxWait(st, q, p)
+//@   define forall q int :: gn_timeout(st, q, q) == 10000000000
+//@   define forall q int :: forall p int :: p >= q && tkKind(st, p) == optTimeout ==> gn_timeout(st, q, p + 2) == mul64(atoiOf(btrim(tkVal(st, p + 1))), 1000000)
+//@   define forall q int :: forall p int :: p >= q && tkKind(st, p) != optTimeout && isGnOpt(tkKind(st, p)) ==> gn_timeout(st, q, p + 2) == gn_timeout(st, q, p)
+//@   define forall q int :: gn_errBackoffMin(st, q, q) == 100000000
+//@   define forall q int :: forall p int :: p >= q && tkKind(st, p) == optErrBackoffMin ==> gn_errBackoffMin(st, q, p + 2) == mul64(atoiOf(btrim(tkVal(st, p + 1))), 1000000)
+//@   define forall q int :: forall p int :: p >= q && tkKind(st, p) != optErrBackoffMin && isGnOpt(tkKind(st, p)) ==> gn_errBackoffMin(st, q, p + 2) == gn_errBackoffMin(st, q, p)
+//@   define forall q int :: gn_errBackoffFactor(st, q, q) == f64lit("3/2")
+//@   define forall q int :: forall p int :: p >= q && tkKind(st, p) == optErrBackoffFactor ==> gn_errBackoffFactor(st, q, p + 2) == parseFloat(btrim(tkVal(st, p + 1)))
+//@   define forall q int :: forall p int :: p >= q && tkKind(st, p) != optErrBackoffFactor && isGnOpt(tkKind(st, p)) ==> gn_errBackoffFactor(st, q, p + 2) == gn_errBackoffFactor(st, q, p)
+//@   define forall q int :: gn_orgId(st, q, q) == 1
+//@   define forall q int :: forall p int :: p >= q && tkKind(st, p) == optOrgId ==> gn_orgId(st, q, p + 2) == atoiOf(btrim(tkVal(st, p + 1)))
+//@   define forall q int :: forall p int :: p >= q && tkKind(st, p) != optOrgId && isGnOpt(tkKind(st, p)) ==> gn_orgId(st, q, p + 2) == gn_orgId(st, q, p)
 //@   modifies *
+//@   ensures[nothing_added_on_error; C20] err != nil ==> calls(table.AddRoute) == L0
+//@   ensures[one_route_added; C20] err == nil ==> llen(calls(table.AddRoute)) == llen(L0) + 1 && typeIs(gnRouteOf(lget(calls(table.AddRoute), llen(L0))), *route.GrafanaNet)
+//@   ensures[each_option_its_own; C20] err == nil ==> (exists q int :: gnPositional(gnCmdCfg(lget(calls(table.AddRoute), llen(L0))), st, q) && gnSwitches(gnCmdCfg(lget(calls(table.AddRoute), llen(L0))), st, q, s.pos)
+//@        && gnNumbers(gnCmdCfg(lget(calls(table.AddRoute), llen(L0))), st, q, s.pos) && gnTimes(gnCmdCfg(lget(calls(table.AddRoute), llen(L0))), st, q, s.pos))
 //@   loop 1:
-//@     invariant[scan] t != nil && (bhasSuffix(cfg.Addr, "/metrics") || bhasSuffix(cfg.Addr, "/metrics/"))
+//@     invariant[scan] s.input == st && t != nil && t.Token == tkKind(st, tokPos(t, s)) && tokPos(t, s) >= entry(tokPos(t, s)) && calls(table.AddRoute) == L0 && (bhasSuffix(cfg.Addr, "/metrics") || bhasSuffix(cfg.Addr, "/metrics/"))
+//@     invariant[positional] gnPositional(cfg, st, entry(tokPos(t, s)))
+//@     invariant[blocking] cfg.Blocking == gn_blocking(st, entry(tokPos(t, s)), tokPos(t, s))
+//@     invariant[spool] cfg.Spool == gn_spool(st, entry(tokPos(t, s)), tokPos(t, s))
+//@     invariant[sslVerify] cfg.SSLVerify == gn_sslVerify(st, entry(tokPos(t, s)), tokPos(t, s))
+//@     invariant[concurrency] cfg.Concurrency == gn_concurrency(st, entry(tokPos(t, s)), tokPos(t, s))
+//@     invariant[bufSize] cfg.BufSize == gn_bufSize(st, entry(tokPos(t, s)), tokPos(t, s))
+//@     invariant[flushMaxNum] cfg.FlushMaxNum == gn_flushMaxNum(st, entry(tokPos(t, s)), tokPos(t, s))
+//@     invariant[flushMaxWait] cfg.FlushMaxWait == gn_flushMaxWait(st, entry(tokPos(t, s)), tokPos(t, s))
+//@     invariant[timeout] cfg.Timeout == gn_timeout(st, entry(tokPos(t, s)), tokPos(t, s))
+//@     invariant[errBackoffMin] cfg.ErrBackoffMin == gn_errBackoffMin(st, entry(tokPos(t, s)), tokPos(t, s))
+//@     invariant[errBackoffFactor] cfg.ErrBackoffFactor == gn_errBackoffFactor(st, entry(tokPos(t, s)), tokPos(t, s))
+//@     invariant[orgId] cfg.OrgID == gn_orgId(st, entry(tokPos(t, s)), tokPos(t, s))
+
+//@ // The kafkaMdm and pubsub readers (about 200 lines of option parsing each): panic-freedom only (their options are not specified).
 //@ func readAddRouteKafkaMdm(s *toki.Scanner, table table.Interface) (err error)
 //@   property C14
 //@   merge_paths
